@@ -16,7 +16,8 @@ META = {
     'text': 'States: all 9x9 combinations of (real,effective,saved) uid triples and gid triples over ids with and without passwd/group entries; 6 working-directory kinds (/, 300 B, 4000 B, beyond PATH_MAX, renamed, deleted) '
             'x 4 stdin kinds (pty owned by uid 1, pipe, /dev/null, closed) x new session or not; 5 environments x SUDO_USER/LOGNAME; host names in a private UTS namespace; ancestor chains of depth 1-3; '
             'plus the full product of a two-value reduction of every dimension (independence check). Every single strftime conversion, all ordered pairs of 12 of them, literals, empty and over-long formats. '
-            'All 35 applicable data sources are read in every state and compared with the oracle.',
+            'All 35 applicable data sources are read in every state and compared with the oracle.'
+            " Also: variants of /etc/passwd and /etc/group (and an empty /etc) bound over the real files, 1 500 cgroup texts x 19 selectors, PID namespaces with and without their own /proc (root process with a chosen name), login names around 254 bytes, an exec'ed image in secure-execution mode.",
     'note': 'Where the statement leaves a placeholder text open (no passwd entry, no terminal, unreadable cwd) the oracle only requires "not a wrong value". domain/ipaddr/systemd_unit_name depend on files the sandbox '
             'cannot vary (/etc/hosts, utmp, systemd cgroup) and are observed in the one state that exists. Trusted: the kernel interfaces used as the second route.',
 }
